@@ -152,7 +152,7 @@ func (compound *compoundPoints) GetPoint(tick uint64) (*storage.Point, error) {
 		return nil, err
 	}
 	if dbPoint != nil {
-		if dbPoint.EndHash != endBlock.Hash {
+		if dbPoint.EndHash != endBlock.Hash || !compound.IsFinished(tick) {
 			// invalidate DB & cache
 			err := compound.db.DeletePointByHeight(compound.prefix, tick)
 			if err != nil {
